@@ -11,7 +11,7 @@ use super::{
     TSetIdentifier, TStructIdentifier, TType, ThriftException, ZERO_COPY_THRESHOLD,
     error::ProtocolExceptionKind,
     new_protocol_exception,
-    rw_ext::{ReadExt, WriteExt, split_to_checked},
+    rw_ext::{ReadExt, WriteExt, read_exact_vec, split_to_checked},
 };
 
 const VERSION_LE: u32 = 0x88880000;
@@ -655,10 +655,8 @@ where
 
     #[inline]
     async fn read_bytes_vec(&mut self) -> Result<Vec<u8>, ThriftException> {
-        let len = self.reader.read_i32_le().await? as usize;
-        // FIXME: use maybe_uninit?
-        let mut v = vec![0; len];
-        self.reader.read_exact(&mut v).await?;
+        let len = self.reader.read_i32_le().await?;
+        let v = read_exact_vec(&mut self.reader, len as i64).await?;
         Ok(v)
     }
 
@@ -671,10 +669,8 @@ where
 
     #[inline]
     async fn read_string(&mut self) -> Result<String, ThriftException> {
-        let len = self.reader.read_i32_le().await? as usize;
-        // FIXME: use maybe_uninit?
-        let mut v = vec![0; len];
-        self.reader.read_exact(&mut v).await?;
+        let len = self.reader.read_i32_le().await?;
+        let v = read_exact_vec(&mut self.reader, len as i64).await?;
         Ok(unsafe { String::from_utf8_unchecked(v) })
     }
 
